@@ -44,6 +44,10 @@ func genC14(seed uint64, tier string) *Plan {
 	p.Knobs["topic_val"] = float64(r.intn(2))
 	p.Knobs["v0_inline"] = float64(r.intn(2))
 	p.Knobs["v3_inline"] = float64(r.intn(2))
+	if r.chance(0.2) {
+		// two asynchronous validators on one message (they share a context the library derives)
+		p.Knobs["nval_default"], p.Knobs["topic_val"], p.Knobs["topic_val_all"], p.Knobs["v0_inline"], p.Knobs["v3_inline"] = 1, 1, 1, 0, 0
+	}
 	p.Knobs["p_park"] = []float64{0, 0.5, 1}[r.intn(3)]
 	p.Knobs["workers"] = float64(r.rng(1, 2))
 	p.Knobs["cancel_pos"] = float64(pos)
@@ -162,16 +166,26 @@ func runC14(s *sim) {
 	var shutdown func()
 	midCall, armed := false, false
 	defer func() { verifYieldFn = nil }()
+	armedEvent := false
 	verifYieldFn = func(point int) {
-		if point != verifLoopRequest {
-			return
-		}
-		s.mu.Lock()
-		a := armed
-		armed = false
-		s.mu.Unlock()
-		if a {
-			s.park("loop-request", nil, nil, nil)
+		switch point {
+		case verifLoopRequest:
+			s.mu.Lock()
+			a := armed
+			armed = false
+			s.mu.Unlock()
+			if a {
+				s.park("loop-request", nil, nil, nil)
+			}
+		case verifLoopEvent:
+			// a peer / stream / wire event has been received by the loop and not yet handled
+			s.mu.Lock()
+			a := armedEvent
+			armedEvent = false
+			s.mu.Unlock()
+			if a {
+				s.park("loop-event", nil, nil, nil)
+			}
 		}
 	}
 	issue := func(kind int, a1, a2 int64) {
@@ -520,15 +534,47 @@ func runC14(s *sim) {
 	}
 	pos := p.ki("cancel_pos", 0)
 	step := 0
+	midEvent := false
 	w.beforeItem = append(w.beforeItem, func(it Item) {
 		if step == pos {
-			if p.kb("cancel_mid_call") && it.Op == "api" {
+			switch {
+			case p.kb("cancel_mid_call") && it.Op == "api":
 				midCall = true // the api item itself performs the shutdown, in the middle of the call
-			} else {
+			case p.kb("cancel_mid_call") && it.Op != "release" && it.Op != "stall":
+				// a wire-level item: the loop is parked on the first peer / stream / wire event this
+				// item causes, the context is cancelled, then the loop is released
+				midEvent = true
+				s.mu.Lock()
+				armedEvent = true
+				s.mu.Unlock()
+			default:
 				shutdown()
 			}
 		}
 		step++
+	})
+	w.afterItem = append(w.afterItem, func(it Item) {
+		if !midEvent {
+			return
+		}
+		midEvent = false
+		s.mu.Lock()
+		armedEvent = false
+		s.mu.Unlock()
+		var lg *gate
+		for _, g := range s.parkedGates() {
+			if strings.HasPrefix(g.id, "loop-event") {
+				lg = g
+			}
+		}
+		if lg != nil {
+			s.probe("cancel_mid_event/" + it.Op)
+		}
+		shutdown()
+		if lg != nil {
+			s.release(lg, 0)
+			s.settle()
+		}
 	})
 	w.atEnd = append(w.atEnd, func() {
 		shutdown()
@@ -550,6 +596,15 @@ func runC14(s *sim) {
 				issue(1+2*(k%2), 0, 0)
 			}
 			s.probe("many_subscribes_after_cancel_with_discovery")
+		}
+		// an application validator that watches the context it is given has returned by now
+		if !p.kb("val_ignore_ctx") {
+			for _, g := range s.parkedGates() {
+				if strings.HasPrefix(g.id, "val") {
+					s.violate("C14", "validator-context", "C14/validator-context-not-cancelled", "a validator is still waiting on the context the library gave it although the instance context was cancelled at %v (gate %s)", cancelAt, g.id)
+					break
+				}
+			}
 		}
 		// application callbacks that do not watch their context finish now
 		for round := 0; round < 4; round++ {
